@@ -403,7 +403,32 @@ def r13(ctx):
     ctx.floor(R, 2)
 
 
+def r14(ctx):
+    R = "C02-R14"
+    ctx.rule(R, "what a read does not copy out is kept: ReadHalf::put_slice copies min(available, room) bytes and returns the rest for the next "
+                "read; whether there is a rest is decided from the bytes themselves after the copy (is_empty / len of what remains), never from "
+                "the caller's buffer - a test against the buffer's capacity drops the tail of a segment that straddles a partly filled buffer "
+                "(read_exact across a segment boundary)")
+    ps = ctx.body(R, "turmoil::net::tcp::stream::ReadHalf::put_slice")
+    if not ps:
+        return
+    rets = [bb for bb, i, s in ps.all_stmts() if i != "term" and s["p"]["l"] == 0 and not s["p"].get("p") and s["r"]["k"] == "agg" and s["r"].get("variant") in ("None", "Some")]
+    bad = set()
+    for bb in rets:
+        for sbb in control_switches(ps, bb):
+            for a in Slicer(ctx.w).atoms(ps, ps.term(sbb)["d"]):
+                if a.startswith("call:tokio::io::ReadBuf::") or a.startswith("arg:2:"):
+                    bad.add(a)
+    ctx.inst(R, "put_slice:rest-decided-by-the-bytes", bool(rets) and not bad, ps.span, "the rest is stashed whenever bytes remain after the copy" if rets and not bad else
+             (f"ReadHalf::put_slice decides whether something is left from the caller's buffer ({sorted(bad)}) instead of from the bytes that remain after the copy: "
+              "on a partly filled ReadBuf the tail of a segment is silently dropped" if bad else "put_slice no longer returns Option<rest>: re-derive"))
+    ctx.floor(R, 1)
+
+
 def run(ctx):
+    r14(ctx)
+    from . import C12
+    C12.r7(ctx)   # the stream's table entry lives as long as one half does: close_stream_half is called by the two Drop impls only
     r13(ctx)
     r12(ctx)
     r11(ctx)
